@@ -3,6 +3,7 @@ package s2
 import (
 	"math"
 
+	"github.com/golang/geo/r3"
 	"github.com/golang/geo/s1"
 )
 
@@ -70,5 +71,75 @@ func Harness_C17_max_dual() {
 	d, ok := UpdateMaxDistance(x, a, b, m)
 	vr.Assert("max: update ⇒ strictly above the limit", vr.Implies(ok, d > m))
 	vr.Assert("max: no update ⇒ limit unchanged", vr.Implies(!ok, d == m))
+	vr.Reach("end")
+}
+
+// EdgePairClosestPoints (non-crossing edges): the returned pair is attached to the vertex
+// whose distance to the other edge is the smallest of the four vertex-edge distances.  The
+// vertex-edge distance is an arbitrary non-negative function D(x, a, b) here, with
+// updateMinDistance replaced by the contract established above (update exactly when D is
+// strictly below the current minimum, or always on request); Project returns a marker point,
+// which identifies the branch taken.  Natively the real functions run and the returned pair
+// must realise the minimum vertex-edge distance.
+func vrC17D(x, a, b Point) s1.ChordAngle {
+	d := s1.ChordAngle(vr.UFF9("D", x.X, x.Y, x.Z, a.X, a.Y, a.Z, b.X, b.Y, b.Z))
+	vr.Assume(vr.And(d >= 0, d <= 4))
+	return d
+}
+
+func vrstub_C17_updateMinDistance(x, a, b Point, minDist s1.ChordAngle, alwaysUpdate bool) (s1.ChordAngle, bool) {
+	d := vrC17D(x, a, b)
+	if alwaysUpdate || d < minDist {
+		return d, true
+	}
+	return minDist, false
+}
+
+func vrstub_C17_Project(x, a, b Point) Point       { return Point{r3.Vector{X: 7, Y: 7, Z: 7}} }
+func vrstub_C17_NoCross(a, b, c, d Point) Crossing { return DoNotCross }
+
+func vrC17PairRealisesMinimum(a0, a1, b0, b1 Point) bool {
+	pa, pb := EdgePairClosestPoints(a0, a1, b0, b1)
+	min := s1.InfChordAngle()
+	min, _ = UpdateMinDistance(a0, b0, b1, min)
+	min, _ = UpdateMinDistance(a1, b0, b1, min)
+	min, _ = UpdateMinDistance(b0, a0, a1, min)
+	min, _ = UpdateMinDistance(b1, a0, a1, min)
+	return float64(ChordAngleBetweenPoints(pa, pb)) <= float64(min)+1e-12
+}
+
+func Harness_C17_edge_pair_closest_points() {
+	vr.Domain("RUF")
+	a0, a1, b0, b1 := vrBoundedPoint("a0"), vrBoundedPoint("a1"), vrBoundedPoint("b0"), vrBoundedPoint("b1")
+	label := "the closest-point pair is attached to the vertex with the smallest vertex-edge distance"
+	if vr.Symbolic() {
+		vr.Stub("updateMinDistance", "vrstub_C17_updateMinDistance")
+		vr.Stub("Project", "vrstub_C17_Project")
+		vr.Stub("CrossingSign", "vrstub_C17_NoCross")
+		pa, pb := EdgePairClosestPoints(a0, a1, b0, b1)
+		d0, d1, d2, d3 := vrC17D(a0, b0, b1), vrC17D(a1, b0, b1), vrC17D(b0, a0, a1), vrC17D(b1, a0, a1)
+		var chosen s1.ChordAngle
+		switch {
+		case pb.X == 7 && pa == a0:
+			chosen = d0
+		case pb.X == 7:
+			chosen = d1
+		case pa.X == 7 && pb == b0:
+			chosen = d2
+		default:
+			chosen = d3
+		}
+		vr.Assert(label, vr.And(vr.And(chosen <= d0, chosen <= d1), vr.And(chosen <= d2, chosen <= d3)))
+	} else {
+		if CrossingSign(a0, a1, b0, b1) != Cross && a0.IsUnit() && a1.IsUnit() && b0.IsUnit() && b1.IsUnit() {
+			vr.Assert(label, vrC17PairRealisesMinimum(a0, a1, b0, b1))
+		}
+		// native witnesses: the second edge's first vertex is the closest feature and its second
+		// vertex is still closer to the first edge than the first edge's vertices are to the second
+		ll := func(lat, lng float64) Point { return PointFromLatLng(LatLngFromDegrees(lat, lng)) }
+		vr.Assert(label, vrC17PairRealisesMinimum(ll(0, -10), ll(0, 10), ll(1, 0), ll(2, 1)))
+		vr.Assert(label, vrC17PairRealisesMinimum(ll(0, -10), ll(0, 10), ll(2, 1), ll(1, 0)))
+		vr.Assert(label, vrC17PairRealisesMinimum(ll(1, 0), ll(2, 1), ll(0, -10), ll(0, 10)))
+	}
 	vr.Reach("end")
 }
